@@ -26,6 +26,7 @@ HERE = os.path.dirname(os.path.abspath(__file__))
 OUT = os.path.join(HERE, "..", "lean", "BS", "Generated", "Core.lean")
 
 FILES = [
+    "src/series.rs",
     "src/series/data/inline_meta/meta.rs",
     "src/series/data/index.rs",
     "src/series/data.rs",
@@ -70,7 +71,10 @@ ENUM_ARITY = {
 }
 STD_ENUMS = {
     "Bound": ("Impl.Bound", {"Included": ("incl", 1), "Excluded": ("excl", 1), "Unbounded": ("unb", 0)}),
+    # `TimeRange { None, Some(RangeInclusive) }` is the model's `Option (first, last)`
+    "TimeRange": ("Option", {"None": ("none", 0), "Some": ("some", 1)}),
 }
+MUTSELF_TARGETS = {("TimeRange", "update")}
 ERROR_ENUMS = {"Error"}          # variants become `Fault.err "<Variant>"`
 
 # trivial getters: (type, method) -> field; the Rust body must be literally `self.<field>`
@@ -130,6 +134,7 @@ TARGETS = [
     ("src/seek.rs", "Pos", "lines", None),
     ("src/seek/estimate.rs", "RoughPos", "estimate_lines", None),
     ("src/series/downsample/repair.rs", None, "add_missing_data", None),
+    ("src/series.rs", "TimeRange", "update", None),
 ]
 
 LEAN_KEYWORDS = {"end", "at", "from", "open", "section", "then", "do", "fun", "in", "have", "show", "where",
@@ -264,6 +269,10 @@ class Tr:
             self.sink = "trace_"
             self.mutables.add("trace_")
         self.stopped = False
+        self.mutself = (impl, fn_name) in MUTSELF_TARGETS
+        if self.mutself:
+            self.sink = "self"
+            self.mutables.add("self")
         self.iters = []
         for p in params:
             if p[0] == "self":
@@ -310,6 +319,8 @@ class Tr:
         """-> (enum name, variant) for a path naming an enum variant, else None"""
         if len(path) >= 2:
             en = self.aliases.get(path[-2], path[-2])
+            if en == "Self":
+                en = self.impl
             if en in ENUMS or en in STD_ENUMS or en in ERROR_ENUMS:
                 return en, path[-1]
             return None
@@ -439,7 +450,9 @@ class Tr:
                 return [(ctor, {})]
             if k == "ptstruct" and (vkind != "tuple" and en in ENUMS):
                 raise Unsupported(f"tuple pattern on variant {variant}")
-            if en in STD_ENUMS:
+            if en == "TimeRange":
+                ftys = ["RangeInclusive<u64>"] * len(subs)
+            elif en in STD_ENUMS:
                 ftys = [generic_arg(scrut_ty, en)] * len(subs)
             combos = [([], {})]
             for p, t in zip(subs, ftys):
@@ -1190,6 +1203,9 @@ class Tr:
 
     def assign_stmt(self, st):
         _, op, lhs, rhs = st
+        if self.mutself and op == "=" and lhs == ("deref", ("path", ["self"])):
+            s2, tv, _ = self.atom_of(rhs)
+            return s2 + [("assign", "self", tv)]
         if self.trace and op == "=" and lhs[0] == "field":
             base = self.tr(lhs[1])
             key = (base.ty, lhs[2])
@@ -1320,6 +1336,8 @@ def lean_type(t, impl=None):
         return ENUMS[t][0]
     if t.startswith("Bound<"):
         return "Impl.Bound"
+    if t == "TimeRange":
+        return "(Option (Nat × Nat))"
     if t.startswith("Option<"):
         return f"(Option {lean_type(generic_arg(t, 'Option'), impl)})"
     if t.startswith("Result<"):
@@ -1397,6 +1415,8 @@ def translate_one(w, generated, impl, fn, extra):
     pre = []
     if tr.trace:
         pre.append(("letmutp", "trace_", "([] : List CatchUp)"))
+    if tr.mutself:
+        pre.append(("letmutp", "self", "self"))
     for p in params:
         if p[0] == "self":
             sig.append(f"(self : {lean_type(impl)})")
@@ -1413,7 +1433,7 @@ def translate_one(w, generated, impl, fn, extra):
     rty = lean_type(ret, impl) if ret else "Unit"
     sq = tr.seq(body, "value")
     if tr.sink:
-        rty = f"(List CatchUp × {rty})" if tr.trace else f"(Bytes × {rty})"
+        rty = f"(List CatchUp × {rty})" if tr.trace else (f"({lean_type(impl)} × {rty})" if tr.mutself else f"(Bytes × {rty})")
         last = sq[-1]
         if last[0] == "pure":
             sq = sq[:-1] + [("pure", f"({mangle(tr.sink)}, {last[1]})")]
